@@ -70,7 +70,21 @@ class Lines:
         with settings.debug(False):
             m = list(_compute_getitem_size(x, tuple(norm)))
         mv = 1 if _is_tensor_index_moved_to_start(tuple(norm)) else 0
-        exp = f"S={fmt(ref.shape)}|M={fmt(m)}|mv={mv}|E={fmt(ref.reshape(-1).tolist())}"
+        # x indexed with the library's converted all-tensor index (tensor indices flattened first, as __getitem__ does)
+        from linear_operator.utils.getitem import _convert_indices_to_tensors
+        tshape = torch.broadcast_shapes(*[i.shape for i in norm if torch.is_tensor(i)])
+        flat = [i.expand(tshape).reshape(-1) if torch.is_tensor(i) else i for i in norm]
+        has_t = any(torch.is_tensor(i) for i in norm)
+        conv = x[_convert_indices_to_tensors(x, flat)] if has_t else ref  # the library converts only when tensors are present
+        if has_t and len(tshape) > 1:  # the un-flattening view of __getitem__
+            pos = 0
+            if not mv:
+                for i in norm:
+                    if torch.is_tensor(i):
+                        break
+                    pos += isinstance(i, slice)
+            conv = conv.view(*conv.shape[:pos], *tshape, *conv.shape[pos + 1:])
+        exp = f"S={fmt(ref.shape)}|M={fmt(m)}|mv={mv}|E={fmt(ref.reshape(-1).tolist())}|C={fmt(conv.reshape(-1).tolist())}"
         self.add(f"shape {fmt(shape)} | " + " ".join(enc_item(i) for i in idx), exp, "C03/lean/shape")
 
     # ------------------------------------------------------------------ per-class arithmetic
